@@ -85,6 +85,15 @@ CHECKS = {
           'call may contain its request, and a written-but-unanswered mux request on an open connection must be followed by a Tdiscarded '
           'naming its tag.',
           'transmission = the client\'s write call (bytes handed to the socket); off-tick deadlines', '3/C12'),
+  'C08': ('S', 'fault_enumeration',
+          'exhaustive fault enumeration: every socket I/O call index x fault kind (and pairs; thorough: triples) on the real transports over simulated sockets',
+          'For each scripted scenario (serial: deadline / withheld reply / colliding requests; mux: concurrent requests, withheld reply + '
+          'timeout, requests issued while opening, peer that stops answering pings) a fault-free run records the socket I/O call sequence, '
+          'then one execution per (call index x {exception, EOF, silence, refusal}) and per pair. Oracle: at most one response per request, '
+          'failed connection => state Closed + fault signal + in-flight requests answered + pending Open failed, and a transport that says '
+          'Open and idle must carry a fresh probe request.',
+          'FakeSock behaves like a kernel socket for failed connects; silent peer without deadline on the serial transport is not a '
+          'detectable failure; idle connections broken by the peer without client I/O are exempt from the probe', '3/C08'),
 }
 
 NOT_BUILT = 'check not built yet in this session (planned, see DESIGN.md section 3)'
